@@ -231,6 +231,33 @@ def probes(ctx) -> None:
         ctx.check(len(miss) == 1 and ('self.explicit', True) in cfg.cguards(miss[0], h, siblings=True), 'R-PROBE', load, 'a missing explicit path is the missing-provider error', h, key='Path.load:explicit')
 
 
+def config_read(ctx) -> None:
+    """Every source of the stack is read and merged - in the order given, as often as it is given (no "already read" shortcut:
+    a path repeated later in the stack must win over what came between) - and only a successfully merged file counts as a
+    source; a derived search path never inherits the *explicit* flag of the path it is derived from."""
+    prog = ctx.prog
+    rd = prog.func('forml.setup._conf:Config.read')
+    rets = [r for r in core.walk_local(rd.node) if isinstance(r, ast.Return)]
+    ctx.check(not rets, 'C20.read', rd, 'Config.read has no early exit', rets[0] if rets else rd.node, key='read:no-early-return')
+    tr = next((x for x in rd.body if isinstance(x, ast.Try)), None)
+    first = [x for x in rd.body if not (isinstance(x, ast.Expr) and isinstance(x.value, ast.Constant))]
+    ctx.check(tr is not None and first and first[0] is tr, 'C20.read', rd, 'reading starts unconditionally', rd.node, key='read:unconditional')
+    if tr is not None:
+        ctx.check(any('self.update(tomli.load(' in core.src(x) for x in tr.body), 'C20.read', rd, 'the parsed file is merged through update()', tr, key='read:merge')
+        ctx.check([core.src(x) for x in tr.orelse] == ['self._sources.append(path)'], 'C20.read', rd, 'a merged file is recorded as a source', tr, key='read:record')
+        hs = sorted(core.src(h.type) for h in tr.handlers if h.type is not None)
+        ctx.check(hs == ['FileNotFoundError', 'PermissionError', 'ValueError'], 'C20.read', rd, f'missing file ignored, unreadable file recorded as an error, invalid file fatal ({hs})', tr, key='read:handlers')
+    fe = prog.func('forml.setup._provider:Feed._extract')
+    rb = [a for a in core.walk_local(fe.node) if isinstance(a, ast.Assign) and any(core.src(c.func) == 'super()._extract' for c in core.calls_in(a))]
+    ctx.check(len(rb) == 1 and core.src(rb[0].targets[0]) in ('([reference], kwargs)', '[reference], kwargs'), 'C20.read', fe, 'a feed section resolves to the provider reference its `provider` option names (re-bound from the generic extraction), not to the section name', rb[0] if rb else fe.node, key='feed:reference-rebound')
+    pe = prog.func('forml.setup._provider:Provider._extract')
+    ctx.check(any(isinstance(a, ast.Assign) and 'pop(_conf.OPT_PROVIDER' in core.src(a.value) or isinstance(a, ast.Assign) and 'OPT_PROVIDER' in core.src(a.value) for a in core.walk_local(pe.node)), 'C20.read', pe, 'the generic extraction takes the reference from the `provider` option', pe.node, key='provider:reference')
+    td = prog.func(f'{PROVIDER}:Bank.Path.__truediv__')
+    ret = next((r for r in core.walk_local(td.node) if isinstance(r, ast.Return)), None)
+    sfx = td.param_names[1]
+    ctx.check(ret is not None and core.src(ret.value) == f"Bank.Path(f'{{self.value}}.{{{sfx}}}', explicit=False)", 'C20.read', td, 'a path derived for an alias lookup is never explicit (a miss there falls through to the other search paths)', ret or td.node, key='Path.__truediv__')
+
+
 def references(ctx) -> None:
     """A provider class is referenced by exactly what identifies it: (module, *qualified* name) - the same two attributes the
     class hash is made of - so that inner/local classes are told apart and a class registered under its own reference is found
@@ -254,6 +281,7 @@ def references(ctx) -> None:
 def run(ctx) -> None:
     from . import C08
     references(ctx)
+    config_read(ctx)
 
     C08.eqhash_agreement(ctx, ('forml.provider', 'forml.setup'), floor=3)
     probes(ctx)
